@@ -14,14 +14,15 @@ RULE = ("a probe crate with the same feature names (each forwarding only to quan
         "reciprocal of the bare amount - present in EVERY configuration: all unit pairs incl. ties with panics captured) as events; built and run for the 14 features individually, all jointly and none x {std, no std} x "
         "{f64, Decimal} x {serde on, off}, plus 'all' and 'none' with only the LIBRARY's serde feature on (the crate using the macro has no "
         "serde dependency); quick = 16 sets in the default variant + the 8 variants of 'all' and 'none' + 4 library-serde-only (34 builds), "
-        "thorough = all 128 + 8; build verdict must be success; per back-end the event segment of each quantity must be identical in every configuration "
+        "thorough = all 128 + 8; plus a #![no_std] library crate that defines quantities of every kind with the macro, built with the "
+        "library's std feature on and off x {f64, Decimal}; build verdict must be success; per back-end the event segment of each quantity must be identical in every configuration "
         "that contains it; cell = configuration; non-trivial = configurations with at least one quantity feature")
 
 MAIN_RS = r'''
 #![allow(unused)]
 use quantities::prelude::*;
 use std::fmt::{Debug, Display};
-use std::ops::{Add, Div, Sub};
+use std::ops::{Add, Div, Mul, Sub};
 
 fn corpus<Q>(tag: &str)
 where
@@ -87,6 +88,56 @@ where
                 Ok(s) => println!("{tag}|{name}|{:?}|{:?}|{}", u, v, s),
                 Err(_) => println!("{tag}|{name}|{:?}|{:?}|panic", u, v),
             }
+        }
+    }
+}
+
+/// run-time trait probe (an inherent method shadows the blanket fallback): does `L / R` / `L * R` type-check?
+struct Pr<L, R>(std::marker::PhantomData<(L, R)>);
+trait NoOp { fn has_div(&self) -> bool { false } fn has_mul(&self) -> bool { false } }
+impl<L, R> NoOp for Pr<L, R> {}
+impl<L: Div<R>, R> Pr<L, R> { fn has_div(&self) -> bool { true } }
+trait NoOp2 { fn has_mul2(&self) -> bool { false } }
+impl<L, R> NoOp2 for Pr<L, R> {}
+impl<L: Mul<R>, R> Pr<L, R> { fn has_mul2(&self) -> bool { true } }
+/// which operators between a bare number and the quantity exist in THIS configuration (judged against the declared
+/// derivations of the enabled features, not compared across configurations)
+macro_rules! number_probe {
+    ($Q:ty, $tag:expr) => {{
+        // concrete types: method resolution must see the actual impls (a generic fn would always pick the fallback)
+        let p = Pr::<AmountT, $Q>(std::marker::PhantomData);
+        let q = Pr::<$Q, AmountT>(std::marker::PhantomData);
+        println!("xprobe|{}|{}|{}|{}|{}", $tag, p.has_div(), p.has_mul2(), q.has_div(), q.has_mul2());
+    }};
+}
+
+/// rates between two quantity types: display, both operand orders of the product, value / rate, the reciprocal
+fn rate_corpus<T, P>(tag: &str)
+where
+    T: Quantity + Display + Copy + Div<Rate<T, P>, Output = P> + std::panic::UnwindSafe + 'static,
+    P: Quantity + Display + Copy + Mul<Rate<T, P>, Output = T> + std::panic::UnwindSafe + 'static,
+    Rate<T, P>: Mul<P, Output = T> + Display + Copy + std::panic::UnwindSafe,
+    Rate<P, T>: Mul<T, Output = P> + Display + Copy + std::panic::UnwindSafe,
+    T::UnitType: Debug + std::panic::UnwindSafe,
+    P::UnitType: Debug + std::panic::UnwindSafe,
+{
+    fn ev<V: Display, F: FnOnce() -> V + std::panic::UnwindSafe>(f: F) -> String {
+        std::panic::catch_unwind(f).map(|v| format!("{}", v)).unwrap_or_else(|_| "panic".to_string())
+    }
+    let tus: Vec<T::UnitType> = T::iter_units().collect();
+    let pus: Vec<P::UnitType> = P::iter_units().collect();
+    // (term amount, per multiple): neither is one, so every factor is visible in the results
+    for (ta, pm) in [(Amnt!(7.5), Amnt!(2)), (Amnt!(-3), Amnt!(0.25))] {
+        for (i, tu) in tus.iter().enumerate() {
+            let pu = pus[i % pus.len()];
+            let qu = pus[(i + 1) % pus.len()];
+            let r = Rate::<T, P>::new(ta, *tu, pm, pu);
+            let q = P::new(Amnt!(6), pu);
+            let t = T::new(Amnt!(30), *tu);
+            let q2 = P::new(Amnt!(6), qu);
+            let rc = r.reciprocal();
+            println!("{tag}|rate|{:?}|{:?}|{:?}|{}|{}|{}|{}|{}|{}|{}|{}", tu, pu, qu, r, rc,
+                     ev(move || r * q), ev(move || q * r), ev(move || t / r), ev(move || rc * t), ev(move || r * q2), ev(move || q2 * r));
         }
     }
 }
@@ -190,6 +241,8 @@ fn main() {
         ddiv::<Urq, Vrq, UrqPerVrq>("udef", "U/V"); dmul::<UrqPerVrq, Vrq, Urq>("udef", "UpVxV"); dmul::<Vrq, UrqPerVrq, Urq>("udef", "VxUpV"); ddiv::<Urq, UrqPerVrq, Vrq>("udef", "U/UpV");
         ddiv::<AmountT, Urq, UrqInv>("udef", "1/U"); dmul::<UrqInv, Urq, AmountT>("udef", "IxU"); dmul::<Urq, UrqInv, AmountT>("udef", "UxI"); ddiv::<AmountT, UrqInv, Urq>("udef", "1/I");
         corpus::<UrqInv>("udef-inv");
+        number_probe!(Urq, "udef:Urq"); number_probe!(UrqInv, "udef:UrqInv"); number_probe!(Udef, "udef:Udef");
+        rate_corpus::<Urq, Vrq>("udef"); rate_corpus::<Vrq, Urq>("udef"); rate_corpus::<Udef, Urq>("udef");
         println!("udef|amount|{}|{}|{:?}", HasRefUnit::convert(&Amnt!(2.5), ONE), HasRefUnit::equiv_amount(&Amnt!(4), ONE), <AmountT as HasRefUnit>::unit_from_scale(Amnt!(1)));
     });
     #[cfg(feature = "mass")]
@@ -197,6 +250,8 @@ fn main() {
         use quantities::mass::*;
         corpus::<Mass>("mass");
         serde_corpus::<Mass>("mass");
+        rate_corpus::<Mass, Mass>("mass");
+        number_probe!(Mass, "mass");
         println!("mass|const|{}|{}", Amnt!(1) * POUND, KILOGRAM.as_qty());
     });
     #[cfg(feature = "length")]
@@ -204,6 +259,8 @@ fn main() {
         use quantities::length::*;
         corpus::<Length>("length");
         serde_corpus::<Length>("length");
+        rate_corpus::<Length, Length>("length");
+        number_probe!(Length, "length");
         println!("length|const|{}|{}", Amnt!(12) * INCH, (Amnt!(1) * FOOT) == (Amnt!(12) * INCH));
     });
     #[cfg(feature = "duration")]
@@ -211,6 +268,8 @@ fn main() {
         use quantities::duration::*;
         corpus::<Duration>("duration");
         serde_corpus::<Duration>("duration");
+        rate_corpus::<Duration, Duration>("duration");
+        number_probe!(Duration, "duration");
         println!("duration|const|{}", Amnt!(90) * MINUTE);
     });
     #[cfg(feature = "area")]
@@ -223,6 +282,8 @@ fn main() {
         println!("area|derived|{}|{}|{}|{}", a, back, &l * &w, (Amnt!(2) * KILOMETER) * (Amnt!(3) * KILOMETER));
         corpus::<Area>("area");
         serde_corpus::<Area>("area");
+        rate_corpus::<Area, Area>("area");
+        number_probe!(Area, "area");
         dmul::<Length, Length, Area>("area", "LxL"); ddiv::<Area, Length, Length>("area", "A/L");
     });
     #[cfg(feature = "volume")]
@@ -237,6 +298,8 @@ fn main() {
         println!("volume|derived|{}|{}|{}|{}", v, v2, la, ll);
         corpus::<Volume>("volume");
         serde_corpus::<Volume>("volume");
+        rate_corpus::<Volume, Volume>("volume");
+        number_probe!(Volume, "volume");
         dmul::<Length, Area, Volume>("volume", "LxA"); dmul::<Area, Length, Volume>("volume", "AxL"); ddiv::<Volume, Length, Area>("volume", "V/L"); ddiv::<Volume, Area, Length>("volume", "V/A");
     });
     #[cfg(feature = "speed")]
@@ -251,6 +314,8 @@ fn main() {
         println!("speed|derived|{}|{}|{}|{}", v, d, d2, t2);
         corpus::<Speed>("speed");
         serde_corpus::<Speed>("speed");
+        rate_corpus::<Speed, Speed>("speed");
+        number_probe!(Speed, "speed");
         ddiv::<Length, Duration, Speed>("speed", "L/D"); dmul::<Speed, Duration, Length>("speed", "SxD"); dmul::<Duration, Speed, Length>("speed", "DxS"); ddiv::<Length, Speed, Duration>("speed", "L/S");
     });
     #[cfg(feature = "acceleration")]
@@ -264,6 +329,8 @@ fn main() {
         println!("acceleration|derived|{}|{}|{}|{}", a, v2, t * a, t2);
         corpus::<Acceleration>("acceleration");
         serde_corpus::<Acceleration>("acceleration");
+        rate_corpus::<Acceleration, Acceleration>("acceleration");
+        number_probe!(Acceleration, "acceleration");
         ddiv::<Speed, Duration, Acceleration>("acceleration", "S/D"); dmul::<Acceleration, Duration, Speed>("acceleration", "AxD"); ddiv::<Speed, Acceleration, Duration>("acceleration", "S/A");
     });
     #[cfg(feature = "force")]
@@ -278,6 +345,8 @@ fn main() {
         println!("force|derived|{}|{}|{}|{}", f, f2, m2, a2);
         corpus::<Force>("force");
         serde_corpus::<Force>("force");
+        rate_corpus::<Force, Force>("force");
+        number_probe!(Force, "force");
         dmul::<Mass, Acceleration, Force>("force", "MxA"); ddiv::<Force, Mass, Acceleration>("force", "F/M"); ddiv::<Force, Acceleration, Mass>("force", "F/A");
     });
     #[cfg(feature = "energy")]
@@ -292,6 +361,8 @@ fn main() {
         println!("energy|derived|{}|{}|{}|{}", e, e2, f2, l2);
         corpus::<Energy>("energy");
         serde_corpus::<Energy>("energy");
+        rate_corpus::<Energy, Energy>("energy");
+        number_probe!(Energy, "energy");
         dmul::<Force, Length, Energy>("energy", "FxL"); ddiv::<Energy, Force, Length>("energy", "E/F"); ddiv::<Energy, Length, Force>("energy", "E/L");
     });
     #[cfg(feature = "power")]
@@ -305,6 +376,8 @@ fn main() {
         println!("power|derived|{}|{}|{}|{}", p, e2, t * p, t2);
         corpus::<Power>("power");
         serde_corpus::<Power>("power");
+        rate_corpus::<Power, Power>("power");
+        number_probe!(Power, "power");
         ddiv::<Energy, Duration, Power>("power", "E/D"); dmul::<Power, Duration, Energy>("power", "PxD"); ddiv::<Energy, Power, Duration>("power", "E/P");
     });
     #[cfg(feature = "frequency")]
@@ -318,6 +391,8 @@ fn main() {
         println!("frequency|derived|{}|{}|{}|{}", f, n, n2, t2);
         corpus::<Frequency>("frequency");
         serde_corpus::<Frequency>("frequency");
+        rate_corpus::<Frequency, Frequency>("frequency");
+        number_probe!(Frequency, "frequency");
         ddiv::<AmountT, Duration, Frequency>("frequency", "1/D"); dmul::<Frequency, Duration, AmountT>("frequency", "FxD"); ddiv::<AmountT, Frequency, Duration>("frequency", "1/F");
     });
     #[cfg(feature = "datavolume")]
@@ -325,6 +400,8 @@ fn main() {
         use quantities::datavolume::*;
         corpus::<DataVolume>("datavolume");
         serde_corpus::<DataVolume>("datavolume");
+        rate_corpus::<DataVolume, DataVolume>("datavolume");
+        number_probe!(DataVolume, "datavolume");
         println!("datavolume|const|{}", Amnt!(3) * MEBIBYTE);
     });
     #[cfg(feature = "datathroughput")]
@@ -338,6 +415,8 @@ fn main() {
         println!("datathroughput|derived|{}|{}|{}|{}", r, d2, t * r, t2);
         corpus::<DataThroughput>("datathroughput");
         serde_corpus::<DataThroughput>("datathroughput");
+        rate_corpus::<DataThroughput, DataThroughput>("datathroughput");
+        number_probe!(DataThroughput, "datathroughput");
         ddiv::<DataVolume, Duration, DataThroughput>("datathroughput", "V/D"); dmul::<DataThroughput, Duration, DataVolume>("datathroughput", "TxD"); ddiv::<DataVolume, DataThroughput, Duration>("datathroughput", "V/T");
     });
     #[cfg(feature = "temperature")]
@@ -351,11 +430,102 @@ fn main() {
         }
         serde_corpus::<Temperature>("temperature");
         noref_corpus::<Temperature>("temperature");
+        rate_corpus::<Temperature, Temperature>("temperature");
+        number_probe!(Temperature, "temperature");
         println!("temperature|ops|{}|{}|{}|{:?}", t + t, t - t, t / t, PartialOrd::partial_cmp(&t, &(Amnt!(70) * DEGREE_FAHRENHEIT)));
     });
     println!("done|end");
 }
 '''
+
+
+NOSTD_USER_RS = r'''
+//! A `#![no_std]` crate that defines quantities with the macro, as an embedded user would.
+#![no_std]
+#![allow(unused, non_camel_case_types)]
+use quantities::prelude::*;
+
+#[quantity]
+#[ref_unit(Nref, "nr", "reference")]
+#[unit(Kilonref, "knr", KILO, 1000, "1000·nr")]
+#[unit(Tenthnref, "tnr", 0.1, "nr/10")]
+pub struct Nq {}
+
+#[quantity]
+#[unit(Left, "le")]
+#[unit(Right, "ri")]
+pub struct Nn {}
+
+#[quantity]
+#[unit(Only, "on")]
+pub struct Ns {}
+
+#[quantity(Nq * Nq)]
+#[ref_unit(Sqnref, "nr²")]
+#[unit(Sqkilonref, "knr²", 1000000, "knr²")]
+pub struct NqSq {}
+
+#[quantity(AmountT / Nq)]
+#[ref_unit(Pernref, "1/nr")]
+#[unit(Perkilonref, "1/knr", 0.001, "0.001/nr")]
+pub struct NqInv {}
+
+pub fn touch() -> (AmountT, bool) {
+    let a = Amnt!(2.5) * KILONREF;
+    let b = a.convert(TENTHNREF);
+    let s: NqSq = a * b;
+    let back: Nq = s / a;
+    let i: NqInv = Amnt!(3) / a;
+    let n: AmountT = i * a;
+    let r = Rate::<Nq, Nn>::new(Amnt!(7.5), NREF, Amnt!(2), LEFT);
+    let t: Nq = r * (Amnt!(4) * LEFT);
+    let o = (Amnt!(2) * ONLY) + (Amnt!(3) * ONLY);
+    (n + back.amount() + t.amount() + o.amount(), a > b)
+}
+'''
+
+
+def nostd_user_cargo():
+    return "\n".join(['[package]', 'name = "nostduser"', 'version = "0.0.0"', 'edition = "2021"', 'publish = false', '', '[workspace]', '',
+                      '[lib]', 'path = "src/lib.rs"', '', '[dependencies]',
+                      'quantities = { path = "%s", default-features = false }' % REPO, '', '[features]', 'default = []',
+                      '# the library built with its std feature although this crate is no_std (feature unification makes that the common case)',
+                      'libstd = ["quantities/std"]', 'fpdec = ["quantities/fpdec"]', '', '[profile.dev]', 'opt-level = 0', 'debug = 0',
+                      'incremental = false', '', '[lints.rust]', 'unexpected_cfgs = "allow"', 'unused = "allow"']) + "\n"
+
+
+def nostd_user_builds(part):
+    """A no_std crate using #[quantity] must build whether or not the library itself has std."""
+    cdir = pl.crate_dir("c19-nostd-user")
+    shutil.rmtree(cdir, ignore_errors=True)
+    pl._write(os.path.join(cdir, "Cargo.toml"), nostd_user_cargo())
+    pl._write(os.path.join(cdir, "src", "lib.rs"), NOSTD_USER_RS)
+    pl.ensure_lock(cdir)
+    ok = True
+    for libstd in (True, False):
+        for dec in (False, True):
+            feats = (["libstd"] if libstd else []) + (["fpdec"] if dec else [])
+            name = "no_std user crate/%s/%s" % ("library with std" if libstd else "library without std", "dec" if dec else "f64")
+            part.evals += 1
+            cmd = ["build", "--lib", "--message-format=json"] + (["--features", ",".join(feats)] if feats else [])
+            try:
+                p = fw._cargo(cmd, cdir, os.path.join(WORK, "target-c19-nostd-user"), timeout=1200)
+            except fw.Inconclusive as e:
+                part.inconclusive.append("%s: %s" % (name, e))
+                continue
+            if p.returncode != 0:
+                ok = False
+                diags = [d for d in fw.parse_diags(p.stdout) if d["level"] == "error"]
+                first = diags[0] if diags else {"message": p.stderr[-300:]}
+                sig = {"kind": "build", "config": name, "backend": "dec" if dec else "f64", "class": {"kind": "build", "config": name}}
+                part.violation(sig, "C19 build: %s: a #![no_std] crate that defines quantities with the macro does not build: %s (%s:%s)" % (
+                    name, (first.get("message") or "")[:300], first.get("file"), first.get("line")),
+                    {"module": "c19", "kind": "nostd_user", "config": name, "diags": [{k: d.get(k) for k in ("code", "message", "file", "line")} for d in diags[:6]]})
+            else:
+                part.cell(name)
+                part.count("nostd_user_configs_ok")
+    if ok:
+        pl.cleanup(cdir)
 
 
 def probe_cargo():
@@ -464,6 +634,15 @@ def main(tier, seed, nproc, t0):
         tags = {}
         for l in lines:
             tags.setdefault(l.split("|", 1)[0], []).append(l)
+        # number (op) quantity: n * q, q * n and q / n always exist; n / q only where a reciprocal quantity is declared AND enabled
+        for l in tags.pop("xprobe", []):
+            _, t, ndq, nmq, qdn, qmn = l.split("|")
+            want_ndq = (t in ("duration", "frequency") and "frequency" in cfg["features"]) or t in ("udef:Urq", "udef:UrqInv")
+            got = (ndq == "true", nmq == "true", qdn == "true", qmn == "true")
+            if got != (want_ndq, True, True, True):
+                viol("number_operators", "%s: (number / q, number * q, q / number, q * number) type-check = %s, declared for this configuration: %s" % (
+                    t, got, (want_ndq, True, True, True)), t)
+            part.count("number_operator_probes")
         present = [t for t in tags if t in FEATURES]
         if cfg["serde"]:
             sp = sorted(t[:-6] for t in tags if t.endswith("+serde") and t != "udef+serde")
@@ -498,6 +677,7 @@ def main(tier, seed, nproc, t0):
                     bk, t, ref_name, oname, len(other), diff[0], diff[1]), {"module": "c19", "kind": "differential", "segment": t, "configs": [ref_name, oname]})
         else:
             part.count("segments_identical")
+    nostd_user_builds(part)
     ex = next(((c, r) for c, r in results if r["status"] == "ok" and c["set"] == "speed"), None)
     if ex:
         part.sample({"config": cfg_name(ex[0]), "events": [l for l in ex[1]["out"].splitlines() if l.startswith("speed|derived") or l.startswith("speed|fmt")]})
